@@ -141,7 +141,10 @@ where
 
     fn send(&mut self) -> io::Result<()> {
         let State::Running { write_tx, .. } = &self.state else {
-            panic!("invalid state");
+            return Err(io::Error::new(
+                io::ErrorKind::BrokenPipe,
+                "writer is shut down",
+            ));
         };
 
         let (buffered_tx, buffered_rx) = crossbeam_channel::bounded(1);
